@@ -848,3 +848,72 @@ Qed.
 
 Theorem shape o sc : shape_ok (trun o sc) = true.
 Proof. unfold trun. cbn [shape_ok in_clear negb andb]. apply tserve_shape. reflexivity. Qed.
+
+(** ---------- whole run: what follows the switch is the command loop on the TLS stream alone ---------- *)
+Lemma split_behind (x : tevent) ev : forall rest pre post, ~ In x ev -> ev ++ rest = pre ++ x :: post ->
+  exists pre', pre = ev ++ pre' /\ rest = pre' ++ x :: post.
+Proof.
+  induction ev as [|e r IH]; intros rest pre post Hn E; cbn [app] in *.
+  - exists pre. auto.
+  - destruct pre as [|p pre']; cbn [app] in E.
+    + inversion E; subst. exfalso. apply Hn. left. reflexivity.
+    + inversion E; subst. destruct (IH rest pre' post) as (q & -> & ->); [intros H; apply Hn; right; exact H|assumption|].
+      exists q. auto.
+Qed.
+
+Lemma in_clear_no_switch ev : forallb in_clear ev = true -> ~ In TSwitch ev.
+Proof. intros H Hin. rewrite forallb_forall in H. specialize (H _ Hin). discriminate. Qed.
+
+Lemma in_tls_no_switch ev : forallb in_tls ev = true -> ~ In TSwitch ev.
+Proof. intros H Hin. rewrite forallb_forall in H. specialize (H _ Hin). discriminate. Qed.
+
+(** the state in which the TLS session starts: initial command state, no sender, no recipients, empty line buffer,
+    the TLS stream as the only input *)
+Definition fresh_in_tls (t' : tstate) (segs : list bytes) : Prop :=
+  tls t' = true
+  /\ rd (ss t') = {| inn := []; en := {| cur := []; future := segs |} |}
+  /\ comstate (ss t') = 1%N /\ mailfrom (ss t') = [] /\ rcpts (ss t') = []
+  /\ rcptcount (ss t') = 0 /\ goodrcpt (ss t') = 0 /\ badcmds (ss t') = 0.
+
+Lemma tserve_factor fuel o closes : forall t a pre post,
+  R (o_clear o) (ss t) a -> tls t = false -> tserve fuel o closes t = pre ++ TSwitch :: post ->
+  exists f' t' segs, post = tserve f' o closes t' /\ fresh_in_tls t' segs.
+Proof.
+  induction fuel as [|f IH]; intros t a pre post HR Ht E; cbn [tserve] in E.
+  { destruct pre as [|p [|q pre]]; discriminate. }
+  destruct (tstep f o closes t) as [ev so] eqn:Es.
+  destruct (tstep_in_clear _ _ _ _ _ _ Ht Es) as [(Hev & Hn)|(Hev & t' & Hso & Ht')].
+  - destruct (split_behind TSwitch ev _ pre post (in_clear_no_switch _ Hev) E) as (pre' & -> & Erest).
+    destruct so as [t1|].
+    + destruct (tstep_inv _ _ _ _ _ _ _ HR Es) as (a' & _ & Hnext).
+      apply (IH t1 a' pre' post); [apply Hnext; reflexivity|apply Hn; reflexivity|exact Erest].
+    + exfalso. destruct (closes && no_later t); destruct pre' as [|p [|q pre']]; discriminate.
+  - assert (Hin : In TSwitch ev) by (rewrite Hev; right; left; reflexivity).
+    destruct (no_cleartext_at_switch _ _ _ _ _ _ Es Hin) as (l & r' & segs & l' & Hread & _ & _ & _ & _ & _ & _ & _ & Hm & _ & Hso').
+    subst ev so. inversion Hso'; subst t'. clear Hso'.
+    cbn [app] in E.
+    pose proof (tserve_in_tls f o closes _ Ht') as Htl. apply in_tls_no_switch in Htl.
+    assert (Epost : post = tserve f o closes
+              {| ss := set_badcmds (set_comstate (set_rd (ss t) {| inn := []; en := {| cur := []; future := segs |} |}) 1%N) 0;
+                 tls := true; later := l' |}).
+    { destruct pre as [|p [|q pre]]; cbn [app] in E.
+      - discriminate.
+      - inversion E; reflexivity.
+      - exfalso. inversion E as [[E1 E2 E3]]. apply Htl. rewrite E3. apply in_or_app. right. left. reflexivity. }
+    eexists f, _, segs. split; [exact Epost|].
+    assert (HRs : R (o_clear o) (set_rd (ss t) r') a) by exact HR.
+    assert (Hm' : N.land (comstate (set_rd (ss t) r')) 16 <> 0%N) by exact Hm.
+    destruct (R_ehlo_state _ _ _ HRs Hm') as (_ & Hmf & Hrc & Hnn & Hg).
+    unfold fresh_in_tls. cbn. cbn in Hmf, Hrc, Hnn, Hg. auto 10.
+Qed.
+
+Theorem after_switch_only_tls_input o sc pre post : trun o sc = pre ++ TSwitch :: post ->
+  exists f' t' segs, post = tserve f' o (sc_closes sc) t' /\ fresh_in_tls t' segs.
+Proof.
+  unfold trun. generalize (tfuel sc) as fu. intros fu E.
+  destruct pre as [|p pre]; cbn [app] in E; [discriminate|]. injection E as _ E'.
+  apply (tserve_factor fu o (sc_closes sc) (tinit sc) a_init pre post); [|reflexivity|exact E'].
+  unfold tinit. cbn [ss]. split.
+  - unfold init_state, Rc, a_init. cbn. repeat split; auto.
+  - unfold Irel, init_state. cbn. discriminate.
+Qed.
